@@ -24,6 +24,8 @@ type Frame struct {
 	oldEnv map[ssa.Value]Value
 	where  string
 	free   []Value
+	listItem *ListItem
+	mergedPhis map[*ssa.Phi]Value
 }
 
 type loopRT struct {
@@ -184,7 +186,20 @@ func (s *State) run(fn *ssa.Function, args []Value, isRoot bool, fc *FuncContrac
 		}
 		if lrt := fr.loops[b]; lrt != nil {
 			fr.loopHeader(b, prev, lrt)
+		} else if fr.mergedPhis != nil {
+			for phi, v := range fr.mergedPhis {
+				fr.env[phi] = v
+			}
+			fr.mergedPhis = nil
 		} else {
+			if b.Comment == "rangeindex.loop" && fr.visits[b] == 1 {
+				if done, ret := fr.rangeOverList(b, prev); ret != nil {
+					return ret.vals
+				} else if done != nil {
+					prev, b = b, done
+					continue
+				}
+			}
 			for _, in := range b.Instrs {
 				if phi, ok := in.(*ssa.Phi); ok {
 					fr.env[phi] = fr.phiValue(phi, b, prev)
@@ -209,6 +224,14 @@ func (s *State) run(fn *ssa.Function, args []Value, isRoot bool, fc *FuncContrac
 				case c.IsFalse():
 					next = b.Succs[1]
 				default:
+					if join, merged := fr.tryTriangle(b, c); join != nil {
+						fr.mergedPhis = merged
+						if len(merged) == 0 {
+							fr.mergedPhis = map[*ssa.Phi]Value{}
+						}
+						next = join
+						break
+					}
 					if s.decide(2, "if") == 0 {
 						s.assume(c)
 						next = b.Succs[0]
@@ -561,6 +584,17 @@ func (fr *Frame) indexAddr(x *ssa.IndexAddr) Value {
 	s := fr.st
 	idx := toIndex(fr.get(x.Index), x.Index.Type())
 	switch b := fr.get(x.X).(type) {
+	case *ListV:
+		var v Value
+		if fr.listItem != nil {
+			v = fr.listItem.Val
+		} else if idx.IsConst() && int(idx.Val) < len(b.Items) && b.Items[idx.Val].Guard.IsTrue() {
+			v = b.Items[idx.Val].Val
+		} else {
+			unsup("indexing a list with conditional elements")
+		}
+		o := s.newObj(b.Elem, v, "listitem", true)
+		return &PtrV{Nil: False, Obj: o, Elem: b.Elem}
 	case *SliceV:
 		s.check("safety:index@"+fr.loc(x), And(CmpBV("bvsle", Const(64, 0), idx), CmpBV("bvslt", idx, b.Len)))
 		o := b.object()
@@ -933,6 +967,11 @@ func (s *State) convert(v Value, from, to types.Type, where string) Value {
 	if b, ok := to.Underlying().(*types.Basic); ok && b.Info()&types.IsString != 0 {
 		switch x := v.(type) {
 		case *SliceV:
+			if o := x.object(); o != nil {
+				if src, ok := s.byteStr[o.ID]; ok && x.Off.IsConst() && x.Off.Val == 0 && x.Len == src.Len {
+					return src
+				}
+			}
 			arr := s.sliceArr(x)
 			return &StringV{Arr: &ArrCopy{Base: &ArrZero{W: 8}, DstOff: Const(64, 0), Src: arr, SrcOff: x.Off, N: x.Len}, Len: x.Len}
 		case *StringV:
@@ -945,6 +984,10 @@ func (s *State) convert(v Value, from, to types.Type, where string) Value {
 		if x, ok := v.(*StringV); ok {
 			contents := &ArrayV{Arr: &ArrCopy{Base: &ArrZero{W: 8}, DstOff: Const(64, 0), Src: x.Arr, SrcOff: Const(64, 0), N: x.Len}, N: x.Len, Elem: types.Typ[types.Uint8]}
 			o := s.newObj(types.NewArray(types.Typ[types.Uint8], 0), contents, "bytes(string)", true)
+			if s.byteStr == nil {
+				s.byteStr = map[int]*StringV{}
+			}
+			s.byteStr[o.ID] = x
 			return &SliceV{Obj: o, Off: Const(64, 0), Len: x.Len, Cap: x.Len, Elem: types.Typ[types.Uint8]}
 		}
 	}
